@@ -68,6 +68,8 @@ pub enum MarkerKind {
     Restricted,
     /// a restricted marker whose lifecycle status is not Active (Finalized): still a restricted marker
     RestrictedFinalized,
+    /// a marker of unspecified type (0): not a restricted marker
+    Unspecified,
     /// the module answers, but with no marker in the response
     EmptyResponse,
     /// the module answers with something that is not a marker account
@@ -80,6 +82,7 @@ impl MarkerKind {
             MarkerKind::Coin => "coin",
             MarkerKind::Restricted => "restricted",
             MarkerKind::RestrictedFinalized => "restricted-finalized",
+            MarkerKind::Unspecified => "unspecified-type",
             MarkerKind::EmptyResponse => "empty-response",
             MarkerKind::Garbage => "garbage",
         }
@@ -89,6 +92,7 @@ impl MarkerKind {
             "coin" => MarkerKind::Coin,
             "restricted" => MarkerKind::Restricted,
             "restricted-finalized" => MarkerKind::RestrictedFinalized,
+            "unspecified-type" => MarkerKind::Unspecified,
             "empty-response" => MarkerKind::EmptyResponse,
             "garbage" => MarkerKind::Garbage,
             _ => MarkerKind::NoMarker,
@@ -100,6 +104,7 @@ impl MarkerKind {
             MarkerKind::Coin => 'c',
             MarkerKind::Restricted => 'R',
             MarkerKind::RestrictedFinalized => 'F',
+            MarkerKind::Unspecified => 'u',
             MarkerKind::EmptyResponse => 'e',
             MarkerKind::Garbage => 'g',
         }
@@ -143,7 +148,7 @@ impl Querier for ChainQ {
                         // (provwasm's `Any` cannot serialise an unknown payload, so this is answered like a
                         // module error)
                         MarkerKind::Garbage => SystemResult::Ok(ContractResult::Err("unexpected account type".into())),
-                        MarkerKind::Coin | MarkerKind::Restricted | MarkerKind::RestrictedFinalized => {
+                        MarkerKind::Coin | MarkerKind::Restricted | MarkerKind::RestrictedFinalized | MarkerKind::Unspecified => {
                             let m = MarkerAccount {
                                 base_account: Some(BaseAccount {
                                     address: format!("marker_{}", req.id),
@@ -156,7 +161,7 @@ impl Querier for ChainQ {
                                 status: if kind == MarkerKind::RestrictedFinalized { 2 } else { 3 },
                                 denom: req.id.clone(),
                                 supply: "1000".into(),
-                                marker_type: if kind == MarkerKind::Coin { 1 } else { 2 },
+                                marker_type: match kind { MarkerKind::Coin => 1, MarkerKind::Unspecified => 0, _ => 2 },
                                 supply_fixed: false,
                                 allow_governance_control: true,
                                 allow_forced_transfer: false,
